@@ -151,7 +151,16 @@ func (t *Tree) Get(topic string) []interface{} {
 	defer t.mutex.Unlock()
 
 	// get values
-	return t.get(topic, t.root)
+	values := t.get(topic, t.root)
+	if values == nil {
+		return nil
+	}
+
+	// return a copy, the stored list is modified by later operations
+	result := make([]interface{}, len(values))
+	copy(result, values)
+
+	return result
 }
 
 func (t *Tree) get(topic string, node *node) []interface{} {
